@@ -28,6 +28,31 @@ pub mod sync_discovery;
 
 const UNICAST_RESPONSE: bool = cfg!(not(test));
 
+/// Verification hooks: access to the crate-private handling pipeline
+#[cfg(simple_dns_verif)]
+pub mod verif {
+    pub use crate::resource_record_manager::{DomainResourceFilter, ResourceRecordManager};
+
+    /// see `crate::build_reply`
+    pub fn build_reply<'b>(
+        packet: simple_dns::Packet,
+        resources: &'b ResourceRecordManager<'b>,
+    ) -> Option<(simple_dns::Packet<'b>, bool)> {
+        crate::build_reply(packet, resources)
+    }
+
+    /// see `InstanceInformation::from_records`
+    pub fn instance_from_records<'b>(
+        service_name: &simple_dns::Name<'b>,
+        records: impl Iterator<Item = &'b simple_dns::ResourceRecord<'b>>,
+    ) -> Option<crate::InstanceInformation> {
+        crate::InstanceInformation::from_records(service_name, records)
+    }
+
+    #[cfg(feature = "sync")]
+    pub use crate::sync_discovery::verif_add_response_to_resources;
+}
+
 pub(crate) fn build_reply<'b>(
     packet: simple_dns::Packet,
     resources: &'b resource_record_manager::ResourceRecordManager<'b>,
